@@ -1,6 +1,8 @@
 package rtsp
 
 import (
+	"net"
+
 	"github.com/cnotch/ipchub/media"
 	"github.com/cnotch/ipchub/zzverif/symapi"
 )
@@ -52,4 +54,10 @@ func VerifMulticastMembers() {
 	}
 	symapi.Assert(src.ConsumerCount() == 0 && proxy.closed, "proxy-stops-when-the-last-member-leaves")
 	symapi.Reach("end")
+}
+
+// net.ListenUDP is replaced by this in the executor (no sockets): an unconnected UDPConn
+// whose operations fail with EINVAL like any closed connection.
+func verifListenUDPStub(network string, laddr *net.UDPAddr) (*net.UDPConn, error) {
+	return &net.UDPConn{}, nil
 }
